@@ -22,7 +22,7 @@ def main(tier):
     pts = fam['points']
     scenes = []
     for mode, sets in ((1, fam['scenes']), (0, fam['pscenes'])):
-        for st in rnd.sample(sets, 60 if quick else 1500):
+        for st in rnd.sample(sets, min(len(sets), 60 if quick else 1500)):
             shapes = [RC.rect_poly(r) for r in st] if mode == 1 else st
             free = [p for p in pts if not any(RC.in_closed_convex(p, poly) for poly in shapes)]
             conns = []
